@@ -18,6 +18,9 @@ pub enum Case {
     Parse { text: String },
     /// d1 op d2 for + - and the six relations
     Arith { a: i64, b: i64, op: String },
+    /// an unparenthesised chain d0 ± d1 ± d2 ... evaluated from the left; `via_wrapper` hands the durations over through
+    /// the crate's serde wrapper instead of as ready-made values
+    Chain { items: Vec<i64>, minus: Vec<bool>, via_wrapper: bool },
 }
 
 pub fn boundary() -> Vec<i64> {
@@ -130,6 +133,25 @@ pub fn check(c: &Case) -> Outcome {
                         fail(format!("`{src}` is a documented well-formed duration ({lo} ns) but is rejected: {}", got.show()))
                     }
                 }
+            }
+        }
+        Case::Chain { items, minus, via_wrapper } => {
+            let vars: Vec<(String, V)> = items.iter().enumerate().map(|(k, ns)| (format!("d{k}"), V::dur_ns(*ns as i128))).collect();
+            let mut src = "d0".to_string();
+            let mut acc: Option<i128> = Some(items[0] as i128);
+            for k in 1..items.len() {
+                let m = minus.get(k - 1).copied().unwrap_or(false);
+                src.push_str(&format!(" {} d{k}", if m { '-' } else { '+' }));
+                acc = acc.and_then(|a| {
+                    let r = if m { a - items[k] as i128 } else { a + items[k] as i128 };
+                    (MIN..=MAX).contains(&r).then_some(r)
+                });
+            }
+            let ran = if *via_wrapper { sut::run_src_wrapped(&src, &vars) } else { sut::run_src(&src, &vars) };
+            match (acc, ran) {
+                (Some(want), Ran::Done(R::Val(v))) if v.dur_total_ns() == Some(want) => pass_n(items.len() >= 4, vec!["chain-exact", if *via_wrapper { "durations-through-the-serde-wrapper" } else { "durations-as-values" }]),
+                (None, Ran::Done(R::Err(..))) => pass_n(items.len() >= 4, vec!["chain-leaves-the-range"]),
+                (want, o) => fail(format!("`{src}` with {items:?} ns{}: from the left the chain gives {}, observed {}", if *via_wrapper { " (handed over as cel_interpreter::Duration)" } else { "" }, want.map(|w| format!("{w} ns")).unwrap_or("an out-of-range partial sum (error)".into()), o.show())),
             }
         }
         Case::Arith { a, b, op } => {
@@ -250,6 +272,9 @@ pub fn run(r: &mut Runner) {
         fixed.push(Case::Parse { text: t.to_string() });
     }
     // very long numbers: fractions of 20 … 400 digits, integer parts of 20 … 60 digits
+    for t in ["1h ", "1h\n", "90m\t", "1h\u{a0}", " 1h", "1h  ", "1s\r\n", "\t1s", "1 h", "1h 30m"] {
+        fixed.push(Case::Parse { text: t.to_string() });
+    }
     for n in [19usize, 20, 38, 39, 40, 64, 127, 128, 129, 200, 400] {
         fixed.push(Case::Parse { text: format!("1.{}s", "3".repeat(n)) });
         fixed.push(Case::Parse { text: format!("0.{}1ms", "0".repeat(n)) });
@@ -267,6 +292,19 @@ pub fn run(r: &mut Runner) {
     let n = r.tier.n(10_000, 500_000);
     r.random("random-print-round-trip", 8, n, |u: &mut Chooser| Case::Print { ns: gen_ns(u), via_literal: u.flip() }, check);
     r.random("random-strings", 60, n, |u: &mut Chooser| Case::Parse { text: gen_text(u) }, check);
+    r.random(
+        "chains-of-sums-and-differences",
+        20,
+        n / 2,
+        |u: &mut Chooser| {
+            let bb = boundary();
+            let len = 2 + u.below(5);
+            let items = (0..len).map(|_| if u.flip() { *u.pick(&bb) } else { gen_ns(u) }).collect();
+            let minus = (0..len).map(|_| u.chance(1, 3)).collect();
+            Case::Chain { items, minus, via_wrapper: u.chance(1, 3) }
+        },
+        check,
+    );
     r.random(
         "random-arithmetic",
         16,
